@@ -178,6 +178,10 @@ TYPES['104'] = dict(
 pub open spec fn f23e_codes(f: Field23E, allowed: Seq<&'static str>) -> Seq<Seq<char>> {
     one_if(!lits_contain(allowed, f.instruction_code@), "T47"@) + one_if(f.additional_info.is_some() && f.instruction_code@ != "OTHR"@, "D81"@)
 }
+/// the sum of the 32B amounts of the first n transactions, in order, with the (uninterpreted) float addition
+pub open spec fn sum32b(v: Seq<MT104Transaction>, n: int) -> f64
+    decreases n
+{ if n <= 0 { 0.0f64 } else { vx::fadd(sum32b(v, n - 1), v[n - 1].field_32b.amount) } }
 /// C11 (C02): the currencies of a field family in message order (sequence B occurrences, then the one of sequence C)
 pub open spec fn ccy_32b(t: MT104Transaction) -> Option<Seq<char>> { Some(t.field_32b.currency@) }
 pub open spec fn ccy_71g(t: MT104Transaction) -> Option<Seq<char>> { match t.field_71g { Some(f) => Some(f.currency@), None => None } }
@@ -293,12 +297,23 @@ hint start
         opt('validate_c5_field_72_rtnd', 'C82', '(rtnd_a(m) && m.field_72.is_none()) || (!rtnd_a(m) && m.field_72.is_some())',
             doc='C5 (C82): field 72 present exactly when 23E of sequence A is RTND'),
         vec('validate_c6_charges_dependencies', 'c6_spec', extra='hint start\n  broadcast use group_codes;'),
-        stub('validate_c7_currency_amount_difference', 'floating point difference'),
+        each('validate_c7_currency_amount_difference', 'transactions', 'MT104Transaction',
+             'one_if(t.field_33b.is_some() && t.field_32b.currency@ == t.field_33b.unwrap().currency@ && vx::absdiff_lt(t.field_32b.amount, t.field_33b.unwrap().amount, 0.01f64), "D21"@)',
+             doc='C7 (D21): with 33B present, the currency code or the amount (tolerance 0.01) or both differ from 32B; float arithmetic abstract', extra='fmtcat *'),
         each('validate_c8_exchange_rate', 'transactions', 'MT104Transaction',
              'one_if(if t.field_33b.is_some() { if t.field_32b.currency@ != t.field_33b.unwrap().currency@ { t.field_36.is_none() } else { t.field_36.is_some() } } else { t.field_36.is_some() }, "D75"@)',
              doc='C8 (D75): 33B present and currencies differ => 36 mandatory; 33B present and same currency => 36 not allowed; 33B absent => 36 not allowed'),
-        stub('validate_c9_field_19', 'floating point sum', ret='opt'),
-        stub('validate_c10_field_19_amount', 'no oracle written yet', ret='opt'),
+        opt('validate_c9_field_19', 'D80', 'm.field_32b.is_some() && (if vx::absdiff_lt(m.field_32b.unwrap().amount, sum32b(m.transactions@, m.transactions@.len() as int), 0.01f64) { m.field_19.is_some() } else { m.field_19.is_none() })',
+            doc='C9 (D80): with sequence C, field 19 is absent when the 32B amount of sequence C equals the sum of the 32B amounts of sequence B (tolerance 0.01) and present otherwise; float arithmetic abstract',
+            extra='''loop 0 iter=it
+  invariant sum_of_amounts == sum32b(self.transactions@, it.index@ as int)
+'''),
+        opt('validate_c10_field_19_amount', 'C01', 'm.field_19.is_some() && vx::absdiff_gt(m.field_19.unwrap().amount, sum32b(m.transactions@, m.transactions@.len() as int), 0.01f64)',
+            doc='C10 (C01): field 19, when present, equals the sum of the 32B amounts of sequence B (tolerance 0.01); float arithmetic abstract',
+            extra='''fmtcat *
+loop 0 iter=it
+  invariant sum_of_amounts == sum32b(self.transactions@, it.index@ as int)
+'''),
         vec('validate_c11_currency_consistency', 'c11_spec', doc='C11 (C02): one currency for all 32B of the message, one for all 71G (sequences B and C), one for all 71F; each family is reported once',
             extra='''fmtcat *
 loop 0 iter=it
@@ -421,6 +436,20 @@ hint after "let parts: Vec<&str> ="
             extra='fmtcat *\nhint start\n  broadcast use group_codes;'),
     ])
 
+# ---- MT292 / MT296: field 79 and the copy of the original message's fields
+TYPES['292'] = dict(
+    helpers=[('has_field_79', 'r == self.field_79.is_some()'), ('has_original_fields', 'r == (self.original_fields@.len() != 0)')],
+    rules=[
+        opt('validate_c1_field_79_or_original_fields', 'C25', 'm.field_79.is_none() && m.original_fields@.len() == 0',
+            doc='C1 (C25): field 79 or a copy of at least the mandatory fields of the original message or both must be present'),
+    ])
+TYPES['296'] = dict(
+    helpers=[('has_field_79', 'r == self.field_79.is_some()'), ('has_original_fields', 'r == (self.original_fields@.len() != 0)')],
+    rules=[
+        opt('validate_c1_field_79_or_copy', 'C31', 'm.field_79.is_some() && m.original_fields@.len() != 0',
+            doc='C1 (C31): field 79 or a copy of the fields of the message the answer relates to, but not both'),
+    ])
+
 # ---- MT204: C3 (T10)
 TYPES['204'] = dict(
     scalars=['MAX_SEQUENCE_B_OCCURRENCES'],
@@ -467,6 +496,18 @@ pub open spec fn any_71a(m: &MT107) -> bool { exists|i: int| 0 <= i < m.transact
 pub open spec fn any_77b(m: &MT107) -> bool { exists|i: int| 0 <= i < m.transactions@.len() && (#[trigger] m.transactions@[i]).field_77b.is_some() }
 pub open spec fn any_71f(m: &MT107) -> bool { exists|i: int| 0 <= i < m.transactions@.len() && (#[trigger] m.transactions@[i]).field_71f.is_some() }
 pub open spec fn any_71g(m: &MT107) -> bool { exists|i: int| 0 <= i < m.transactions@.len() && (#[trigger] m.transactions@[i]).field_71g.is_some() }
+pub open spec fn sum32b(v: Seq<MT107Transaction>, n: int) -> f64
+    decreases n
+{ if n <= 0 { 0.0f64 } else { vx::fadd(sum32b(v, n - 1), v[n - 1].field_32b.amount) } }
+pub open spec fn c8_spec(m: &MT107) -> Seq<Seq<char>> {
+    let sum = sum32b(m.transactions@, m.transactions@.len() as int);
+    if m.transactions@.len() == 0 { seq![] }
+    else if any_71f(m) || any_71g(m) {
+        if m.field_19.is_some() { one_if(vx::absdiff_ge(m.field_19.unwrap().amount, sum, 0.01f64), "C01"@) } else { seq!["D80"@] }
+    } else {
+        one_if(vx::absdiff_ge(m.field_32b.amount, sum, 0.01f64), "D80"@) + one_if(m.field_19.is_some(), "D80"@)
+    }
+}
 /// C9 (C02), one transaction against the reference fields of sequence C
 pub open spec fn c9_of(m: &MT107, t: &MT107Transaction) -> Seq<Seq<char>> {
     one_if(t.field_32b.currency@ != m.field_32b.currency@, "C02"@)
@@ -536,11 +577,19 @@ hint start
         opt('validate_c4_rtnd_field_72_dependency', 'C82', '(rtnd_a(m) && m.field_72.is_none()) || (!rtnd_a(m) && m.field_72.is_some())',
             doc='C4 (C82): field 72 present exactly when 23E of sequence A is RTND'),
         vec('validate_c5_charges_fields_consistency', 'c5_spec', extra='hint start\n  broadcast use group_codes;'),
-        stub('validate_c6_field_33b_32b_comparison', 'floating point difference'),
+        each('validate_c6_field_33b_32b_comparison', 'transactions', 'MT107Transaction',
+             'one_if(t.field_33b.is_some() && t.field_32b.currency@ == t.field_33b.unwrap().currency@ && vx::absdiff_lt(t.field_32b.amount, t.field_33b.unwrap().amount, 0.01f64), "D21"@)',
+             doc='C6 (D21): with 33B present, the currency code or the amount (tolerance 0.01) or both differ from 32B; float arithmetic abstract', extra='fmtcat *'),
         each('validate_c7_exchange_rate_dependency', 'transactions', 'MT107Transaction',
              'one_if(if t.field_33b.is_some() { if t.field_32b.currency@ != t.field_33b.unwrap().currency@ { t.field_36.is_none() } else { t.field_36.is_some() } } else { t.field_36.is_some() }, "D75"@)',
              doc='C7 (D75): 33B present and currencies differ => 36 mandatory; otherwise 36 not allowed'),
-        stub('validate_c8_sum_of_amounts', 'floating point sum'),
+        vec('validate_c8_sum_of_amounts', 'c8_spec', doc='C8 (C01 / D80): with charges in sequence B the sum of the 32B amounts is in field 19 (mandatory, equal within 0.01); without charges it is the 32B amount of sequence C and field 19 is absent; float arithmetic abstract',
+            extra='''fmtcat *
+loop 0 iter=it
+  invariant sum_of_amounts == sum32b(self.transactions@, it.index@ as int), self.transactions@.len() > 0, codes(errors@) == Seq::<Seq<char>>::empty()
+hint start
+  broadcast use group_codes;
+'''),
         vec('validate_c9_currency_consistency', 'c9_spec', doc='C9 (C02): 32B and 71G carry one currency in sequences B and C (the settlement currency of sequence C), 71F carries one currency in sequences B and C',
             extra='''fmtcat *
 loop 0 iter=it
